@@ -96,7 +96,11 @@ ASSUME \A p \in 1..Len(AccDict), len \in Lens, base \in Bases :
 \* every entry's type initialisation runs exactly once: dictionaries of k test
 \* entries (k = 1..4) at the front, middle and end of the access dictionary
 TestEntry(i) == [idx |-> i, sub |-> 0, flags |-> 3, kind |-> "test", w |-> 4, data |-> <<0,0,0,0>>, args |-> <<0,0,0,0>>]
-InitDicts == { <<TestEntry(4096)>>, <<TestEntry(4096), TestEntry(4097)>>,
+\* an entry whose initialisation REPORTS AN ERROR (harness: stored first byte EEh): the others are still initialised, once each
+FailEntry(i) == [TestEntry(i) EXCEPT !.data = <<238, 0, 0, 0>>, !.args = <<238, 0, 0, 0>>]
+InitDicts == { <<FailEntry(4096), TestEntry(4097)>>, <<TestEntry(4096), FailEntry(4097), TestEntry(4098)>>,
+               <<FailEntry(4096)>> \o AccDict \o <<TestEntry(65000)>>, <<TestEntry(4096)>> \o AccDict \o <<FailEntry(65000), FailEntry(65001), TestEntry(65002)>>,
+               <<TestEntry(4096)>>, <<TestEntry(4096), TestEntry(4097)>>,
                <<TestEntry(4096)>> \o AccDict, <<TestEntry(4096)>> \o AccDict \o <<TestEntry(65000)>>,
                AccDict \o <<TestEntry(65000)>>, <<TestEntry(4096), TestEntry(4097)>> \o AccDict \o <<TestEntry(65000), TestEntry(65001)>> }
 NTest(d) == Cardinality({p \in 1..Len(d) : d[p].kind = "test"})
